@@ -333,6 +333,9 @@ func c11Run(r *core.Run) {
 		r.Fault("sp_key_rotation")
 		r.Probe("key_rotation")
 	}
+	if t.Int(6, "c11.ambient") == 1 {
+		s.NeighbourNoise(world.Present(plainXML, false, 0))
+	}
 	rp, op := s.Node.ValidateResponse(world.Present(plainXML, false, 0))
 	re, oe := s.Node.ValidateResponse(world.Present(encXML, t.Bool("c11.compress"), 6))
 	r.Steps += 2
